@@ -98,6 +98,15 @@ func damages(s string, toks []ref.Tok) []damaged {
 			for _, nn := range []string{"childs", "Child", "descendent", "self-or", strings.ToUpper(t.Text)} {
 				add("unknown-axis", "axis", s[:t.Pos]+nn+s[t.End:])
 			}
+			// near misses of EVERY axis name: one letter more / fewer, a suffix, a
+			// prefix, another axis name's tail (an axis must be matched whole)
+			for _, ax := range knownAxes {
+				for _, nn := range []string{ax + "s", ax + "x", ax + "2", ax[:len(ax)-1], ax[1:], "x" + ax, ax + "-x", ax + "-or-child", ax + "_", strings.ToUpper(ax[:1]) + ax[1:]} {
+					if !isKnownAxis(nn) {
+						add("unknown-axis", "axis", s[:t.Pos]+nn+s[t.End:])
+					}
+				}
+			}
 		case "name":
 			if t.Text == "*" {
 				continue
@@ -252,6 +261,17 @@ func skelOrRaw(s string) string {
 		return gen.Skeleton(ast)
 	}
 	return s
+}
+
+var knownAxes = []string{"ancestor", "ancestor-or-self", "attribute", "child", "descendant", "descendant-or-self", "following", "following-sibling", "namespace", "parent", "preceding", "preceding-sibling", "self"}
+
+func isKnownAxis(s string) bool {
+	for _, a := range knownAxes {
+		if a == s {
+			return true
+		}
+	}
+	return false
 }
 
 func init() {
